@@ -51,6 +51,9 @@ type unit struct {
 	// the entry starts from ("e:" = its own).
 	Arc   string `json:"arc,omitempty"`
 	Entry int    `json:"entry,omitempty"`
+	// Anchors are the names/versions extracted from the unmutated seed (sent back by the worker after mutant 0
+	// and handed in again on a restart) that drive the output-guided stage of the enumeration.
+	Anchors []string `json:"anchors,omitempty"`
 	// Seq selects the single mutant of a contain unit.
 	Seq int `json:"seq"`
 	// Data, when set, is the only mutant to run (replay).
@@ -60,20 +63,21 @@ type unit struct {
 
 // msg is every non-hot message from worker to parent (one JSON line prefixed "J ").
 type msg struct {
-	T      string `json:"t"` // "viol" | "class" | "done" | "recycle" | "harness" | "contain"
-	Key    string `json:"key,omitempty"`
-	What   string `json:"what,omitempty"`
-	Seq    int    `json:"seq,omitempty"`
-	Class  string `json:"class,omitempty"`
-	Evals  int64  `json:"evals,omitempty"`
-	Exerc  int64  `json:"exerc,omitempty"`
-	Total  int    `json:"total,omitempty"`
-	Part   bool   `json:"part,omitempty"`
-	Alloc  uint64 `json:"alloc,omitempty"`
-	SlowMs int64  `json:"slow_ms,omitempty"`
-	Obs    string `json:"obs,omitempty"`
-	Stack  string `json:"stack,omitempty"`
-	Pct    int    `json:"pct,omitempty"` // tight-budget units: largest allocation as a percentage of the oracle's limit
+	T      string   `json:"t"` // "viol" | "class" | "done" | "recycle" | "harness" | "contain"
+	Key    string   `json:"key,omitempty"`
+	What   string   `json:"what,omitempty"`
+	Seq    int      `json:"seq,omitempty"`
+	Class  string   `json:"class,omitempty"`
+	Evals  int64    `json:"evals,omitempty"`
+	Exerc  int64    `json:"exerc,omitempty"`
+	Total  int      `json:"total,omitempty"`
+	Part   bool     `json:"part,omitempty"`
+	Alloc  uint64   `json:"alloc,omitempty"`
+	SlowMs int64    `json:"slow_ms,omitempty"`
+	Obs    string   `json:"obs,omitempty"`
+	Stack  string   `json:"stack,omitempty"`
+	Anch   []string `json:"anch,omitempty"`
+	Pct    int      `json:"pct,omitempty"` // tight-budget units: largest allocation as a percentage of the oracle's limit
 }
 
 const osRelease = "NAME=\"Debian GNU/Linux\"\nID=debian\nVERSION_ID=\"12\"\nVERSION_CODENAME=bookworm\n"
@@ -619,6 +623,7 @@ type result struct {
 	stack    string
 	err      error
 	npkg     int
+	anchors  []string
 	dt       time.Duration
 	alloc    uint64
 }
@@ -660,6 +665,26 @@ func (sc *scene) extractOnce(ex filesystem.Extractor) (result, error) {
 		res.err = nil
 	}
 	res.npkg = len(inv.Packages)
+	if res.npkg > 0 {
+		set := map[string]bool{}
+		for _, p := range inv.Packages {
+			if p == nil {
+				continue
+			}
+			for _, v := range []string{p.Name, p.Version} {
+				if len(v) >= 3 && len(v) <= 64 {
+					set[v] = true
+				}
+			}
+		}
+		for v := range set {
+			res.anchors = append(res.anchors, v)
+		}
+		sort.Strings(res.anchors)
+		if len(res.anchors) > 16 {
+			res.anchors = res.anchors[:16]
+		}
+	}
 	return res, nil
 }
 
@@ -843,6 +868,10 @@ func runExtractUnit(u unit) error {
 			return false
 		}
 		evals++
+		if seq == 0 && u.Data == nil && u.Arc == "" && u.Anchors == nil && !res.panicked && len(res.anchors) > 0 {
+			src.anch = res.anchors
+			send(msg{T: "anchors", Anch: res.anchors})
+		}
 		if res.alloc > maxAlloc {
 			maxAlloc = res.alloc
 		}
